@@ -247,7 +247,7 @@ def parseReq (toks : List String) : Option Req :=
   match toks with
   | k :: pd :: la :: ll :: hl :: orj :: m :: ct :: rest =>
     match parseAccept rest with
-    | some (acc, pv :: ss :: le :: lim :: len :: mm :: mn :: rest2) =>
+    | some (acc, pv :: ss :: ns :: le :: lim :: len :: dl :: rf :: mm :: mn :: rest2) =>
       match parseHdrs rest2 with
       | some (hdrs, body) =>
         let kind : Option HKind := if k == "Ksl" then some .stateless else if k == "Ksf" then some .stateful else if k == "Ksse" then some .sse else none
@@ -258,11 +258,21 @@ def parseReq (toks : List String) : Option Req :=
           | "bS" :: r => (parseMsgs r []).map (Content.msgs false)
           | "bB" :: r => (parseMsgs r []).map (Content.msgs true)
           | _ => none
+        -- `dl<n>`: the declared Content-Length, `dl-1` = none (chunked); `rf1`: the body reader ends with an error
+        let declared : Option (Option Nat) :=
+          if !dl.startsWith "dl" || !(rf == "rf0" || rf == "rf1") || !(ns == "ns0" || ns == "ns1") then none
+          else match (tailN 2 dl).toInt? with
+            | some d => if d < 0 then some none else some (some d.toNat)
+            | none => none
+        match declared with
+        | none => none
+        | some declared =>
         match kind, meth, sess, content, hexB (tailN 2 ct), hexB (tailN 2 pv), (tailN 3 lim).toInt?, (tailN 3 len).toNat?, hexB (tailN 2 mm), hexB (tailN 2 mn) with
         | some kind, some meth, some sess, some content, some ct, some pv, some lim, some len, some mm, some mn =>
           some { kind := kind, protectionDisabled := pd == "pd1", hasLocalAddr := la == "la1", listenerLoopback := ll == "ll1",
                  hostLoopback := hl == "hl1", originRejects := orj == "or1", method := meth, baseMedia := ct, accept := acc,
-                 version := pv, sess := sess, lastEventId := le == "le1", limit := lim, bodyLen := len, content := content,
+                 version := pv, sess := sess, noSessionIds := ns == "ns1", lastEventId := le == "le1", limit := lim, bodyLen := len,
+                 declared := declared, readFails := rf == "rf1", content := content,
                  mcpMethod := mm, mcpName := mn, paramHdrs := hdrs }
         | _, _, _, _, _, _, _, _, _, _ => none
       | none => none
@@ -322,6 +332,7 @@ def violations (r : Req) : List (String × List (Nat × Option Int)) :=
     v (r.baseMedia != specJson) "Content-Type not application/json" [(415, none)] ++
     v (r.sess == .none) "no session id" [(400, none)] ++
     v (r.sess == .unknown) "unknown session" [(404, none)] ++
+    v r.readFails "request body not delivered completely" [(400, none)] ++
     v (match r.content with | .msgs false [_] => false | _ => true) "body is not one JSON-RPC message" [(400, none)] ++
     v (reqs.any (fun m => m.check != .ok)) "checkRequest failed" [(400, none)]
   | _ =>
@@ -335,7 +346,13 @@ def violations (r : Req) : List (String × List (Nat × Option Int)) :=
     v (!(acc.1 && acc.2)) "Accept does not admit both response types" [(400, none)] ++
     v (!stateless && r.sess == .unknown) "unknown session" [(404, none)] ++
     v r.lastEventId "Last-Event-ID on POST" [(400, none)] ++
-    v ((if r.limit = 0 then (4194304 : Int) else r.limit) > 0 && (r.bodyLen : Int) > (if r.limit = 0 then (4194304 : Int) else r.limit)) "body larger than the limit" [(413, none)] ++
+    (let lim : Int := if r.limit = 0 then (4194304 : Int) else r.limit
+     -- the limit bounds what is delivered, with or without a declared length; declaring more than the limit is over it too
+     v (lim > 0 && ((r.bodyLen : Int) > lim || (match r.declared with | some d => (d : Int) > lim | none => false)))
+       (match r.declared with
+        | some _ => "body larger than the limit"
+        | none => "body larger than the limit (no declared length: chunked upload)") [(413, none)]) ++
+    v r.readFails "request body not delivered completely" [(400, none)] ++
     v (r.bodyLen == 0) "empty body" [(400, none)] ++
     v (match r.content with | .malformed => true | _ => false) "malformed body" [(400, none)] ++
     v (isBatch && bLe spec20250618 pv) "batch under >= 2025-06-18" [(400, none)] ++
@@ -367,6 +384,34 @@ def f6Shape (r : Req) : Bool :=
         | some v => unmarshalPrimitive v == some (.str []) | none => false))
      | none => false)
   | _ => false
+
+/-- Every bound, present, non-null argument is a string, a boolean or an integer within ±(2^53−1). -/
+def argsValidB (p : Props) (a : Args) : Bool :=
+  (bindings p).all (fun b => match a.lookup b.path with
+    | none => true | some .null => true
+    | some v => match unmarshalPrimitive v with
+      | some (.int n) => -specMaxSafe ≤ n && n ≤ specMaxSafe
+      | some _ => true
+      | none => false)
+
+/-- Number of properties of the tree annotated with a non-empty string (read off the tree, no paths involved). -/
+def countBound : Props → Nat
+  | .nil => 0
+  | .cons _ _ xh children rest =>
+    (match xh with | .str s => if s = [] then 0 else 1 | _ => 0) + countBound children + countBound rest
+
+def showPath (π : List Bytes) : String := ".".intercalate (π.map bHex)
+
+/-- `p<hex>.p<hex>=h<hex>` items as printed by the harness for `extractParamHeaderAnnotations`. -/
+def parseImplBindings (items : List String) : Option (List Binding) :=
+  items.mapM (fun it =>
+    match it.splitOn "=" with
+    | [ps, h] =>
+      if !h.startsWith "h" then none else
+      match (ps.splitOn ".").mapM (fun seg => if seg.startsWith "p" then hexB (tail1 seg) else none), hexB (tail1 h) with
+      | some path, some hd => some { path := path, header := hd }
+      | _, _ => none
+    | _ => none)
 
 structure HttpObs where
   status : Nat
@@ -430,6 +475,9 @@ def httpMonitor (r : Req) (o : HttpObs) : Option String :=
       else some s!"C12: violation_status: request meeting every precondition refused with {o.status}/{optInt o.code}"
     | _ =>
       if viol.any (fun p => p.2.contains (o.status, o.code)) then none
+      else if o.status == 400 && o.code == none && r.kind == .stateful && r.noSessionIds && r.sess == .none &&
+          viol.any (fun p => p.2 == [(413, none)]) then
+        some "C12: preflight-F30 oversize body on a stateful handler without session ids: answered 400 instead of 413"
       else some s!"C12: violation_status: status {o.status}/{optInt o.code} is not mandated by any violated precondition"
 
 /-! ### the engine -/
@@ -489,13 +537,45 @@ def stepOp (toks : List String) (impl : String) : Verdict :=
     match parseProps r with
     | some (p, []) =>
       let v := if validateAnnotations p then "ok" else "err"
-      { model := " ".intercalate (v :: showBindings (bindings p)) }
+      -- monitor (binding_path_resolves / bindings_complete / binding_paths_nodup): read from the root of the schema,
+      -- every binding the implementation reports designates a property annotated with exactly that header, no path is
+      -- reported twice, and there are as many bindings as annotated properties
+      let viol : Option String :=
+        if !namesDistinctB p then none else
+        match parseImplBindings ((words impl).drop 1) with
+        | none => some "C12: bindings: unreadable binding list"
+        | some bs =>
+          match bs.find? (fun b => !(match propAt p b.path with
+              | some (_, .str h) => h == b.header && h != []
+              | _ => false)) with
+          | some b => some s!"C12: bindings: the binding for header {bHex b.header} has path {showPath b.path}, which does not designate the property annotated with that header (depth {b.path.length})"
+          | none =>
+            if !nodupB (bs.map (fun b => ".".intercalate (b.path.map bHex) |>.toUTF8.toList.map UInt8.toNat)) then
+              some "C12: bindings: two bindings share one path (sibling annotations alias)"
+            else if bs.length != countBound p then
+              some s!"C12: bindings: {bs.length} bindings for {countBound p} annotated properties"
+            else none
+      { model := " ".intercalate (v :: showBindings (bindings p)), violated := viol }
     | _ => bad
   | "gen" :: r =>
     match parseProps r with
     | some (p, r1) =>
       match parseArgs r1 with
-      | some (a, []) => { model := showHdrs (generateParamHeaders std64 p a) }
+      | some (a, []) =>
+        -- monitor (client side of the mirror): for valid arguments every binding's header mirrors the argument at the
+        -- binding's own path, and no other Mcp-Param header is produced
+        let viol : Option String :=
+          if !(namesDistinctB p && validateAnnotations p && argsValidB p a) then none else
+          match parseHdrs (words impl) with
+          | some (h, []) =>
+            (match (bindings p).find? (fun b => !bindingMirrors a h b) with
+             | some b => some s!"C12: client_server_agree: generateParamHeaders: Mcp-Param-{bHex b.header} does not mirror the argument at {showPath b.path} (depth {b.path.length})"
+             | none =>
+               if h.any (fun e => !(bindings p).any (fun b => lowerBytes b.header == e.1)) then
+                 some "C12: client_server_agree: generateParamHeaders produces a header that no annotation binds"
+               else none)
+          | _ => some "C12: client_server_agree: generateParamHeaders output unreadable"
+        { model := showHdrs (generateParamHeaders std64 p a), violated := viol }
       | _ => bad
     | none => bad
   | "vph" :: r =>
@@ -512,7 +592,11 @@ def stepOp (toks : List String) (impl : String) : Verdict :=
           let spec := match a with | .bad => true | _ => (bindings p).all (bindingMirrors a h)
           let viol := if (impl == "ok") == spec then none
             else if impl != "ok" && f6Like p a h then some "C12: F6 empty-string argument: validateParamHeaders refuses the empty Mcp-Param header the SDK client sends"
-            else some "C12: validateParamHeaders accepts/refuses against the mirror requirement"
+            else if impl == "ok" then
+              (match (bindings p).find? (fun b => !bindingMirrors a h b) with
+               | some b => some s!"C12: dispatch_sound: validateParamHeaders accepts although Mcp-Param-{bHex b.header} differs from the argument at {showPath b.path} (depth {b.path.length})"
+               | none => some "C12: dispatch_sound: validateParamHeaders accepts headers that do not mirror the arguments")
+            else some "C12: violation_status: validateParamHeaders refuses headers that mirror the arguments"
           { model := model, violated := viol }
         | _ => bad
       | none => bad
@@ -528,12 +612,7 @@ def stepOp (toks : List String) (impl : String) : Verdict :=
         -- `extractName` fails on both sides: no Mcp-Name is sent and the server answers -32020
         let model := if !nameOk then "rej -32020 handler=0" else match verdict with | none => "ok same" | some _ => "rej -32020 handler=0"
         -- client_server_agree: for valid arguments (every bound, present, non-null member primitive) the call goes through
-        let valid := nameOk && (bindings p).all (fun b => match a.lookup b.path with
-          | none => true | some .null => true
-          | some v => match unmarshalPrimitive v with
-            | some (.int n) => -specMaxSafe ≤ n && n ≤ specMaxSafe
-            | some _ => true
-            | none => false)
+        let valid := nameOk && argsValidB p a
         let viol :=
           if valid && impl != "ok same" then
             (if f6Like p a hdrs then some "C12: F6 empty-string argument: the SDK server refuses the SDK client's call (-32020 missing header)"
